@@ -80,7 +80,8 @@ def gen_resume(rnd):
     scn["options"]["save_every"] = rnd.choice([1, 2, 3, 100])
     dt = scn["options"]["dt_init"]
     scn["meta"]["steps"] = N
-    return {"mode": "resume", "base": scn, "N": N, "N1": N1, "k2": rnd.choice([1, 2, 100]), "options": scn["options"], "device": scn["device"], "drive": scn["drive"], "faults": []}
+    off = [rnd.choice([0.0, 0.0, 0.5, 0.3, 0.9]) for _ in range(3)]
+    return {"mode": "resume", "off": off, "base": scn, "N": N, "N1": N1, "k2": rnd.choice([1, 2, 100]), "options": scn["options"], "device": scn["device"], "drive": scn["drive"], "faults": []}
 
 
 def traj(h):
@@ -187,7 +188,8 @@ def run_resume(scn):
     sims = []
     try:
         sA = copy.deepcopy(base_scn)
-        sA["options"]["solve_time"] = scen.seq_sum([dt] * N)
+        off = scn.get("off", [0.0, 0.0, 0.0])  # requested run lengths that are not whole multiples of the step
+        sA["options"]["solve_time"] = scen.seq_sum([dt] * N) - off[0] * dt
         simA, hA = run_scenario(sA)
         sims.append(simA)
         if hA.outcome != "solution":
@@ -195,7 +197,7 @@ def run_resume(scn):
         if len(hA.stages["S"]) != N:
             raise Discard("step count mismatch")
         s1 = copy.deepcopy(base_scn)
-        s1["options"]["solve_time"] = scen.seq_sum([dt] * N1)
+        s1["options"]["solve_time"] = scen.seq_sum([dt] * N1) - off[1] * dt
         s1["observer"] = {"output": {"path": "part1.h5", "absolute": True}}
         sim1, h1 = run_scenario(s1)
         sims.append(sim1)
@@ -212,7 +214,7 @@ def run_resume(scn):
             seed = None
         if seed is not None:
             s2 = copy.deepcopy(base_scn)
-            s2["options"]["solve_time"] = scen.seq_sum([dt] * N2)
+            s2["options"]["solve_time"] = scen.seq_sum([dt] * N2) - off[2] * dt
             s2["options"]["save_every"] = scn["k2"]
             sim2, h2 = run_scenario(s2, seed_solution=seed)
             sims.append(sim2)
